@@ -7,8 +7,9 @@ Translated with pylean (function bodies become Lean definitions):
     returning (result, new flag, was the clock read).  The translation is statement by statement (pylean CPS), after
     an AST rewrite that turns the flag attribute into a local, `time_ns()` into the parameter `now` and every `return e`
     into `return (e, flag, <clock read on this path>)`.  Python's true division `/` becomes the exact `TimeBase.trueDiv`.
-  * the guard of `_process_frame` (`collect_vars and not self.__time_exceeded()`), with its short-circuit order: the
-    clock is consulted only for a frame that is selected.
+  * the guard of `_process_frame` (`collect_vars and not self.__time_exceeded()`) is RECOGNISED BY SHAPE, not translated
+    statement by statement: its conjuncts are classified and one of three hand-written Lean templates is emitted by their
+    order (selected-then-time: the clock is consulted only for a frame that is selected; time-then-selected; selected only).
 Extracted as constants: the config key and default of `max_tp_process_time`, the initial value of the flag, that
 `_process_action` builds a new FrameCollector per action (the flag is per action), that `ts` is the trigger's time stamp.
 Anything whose shape is not recognised raises Untranslatable (never guessed)."""
@@ -155,8 +156,8 @@ def gen_guard(parts, fc):
         body = '  (collect_vars, flag, false)\n'
     else:
         raise Untranslatable('_process_frame: collection guard %s' % order)
-    parts.append('/-- the guard of the collection in `_process_frame` (`' + ast.unparse(test) + '`), `and` short-circuits left to\n'
-                 '    right.  Result: (are the locals collected, the flag afterwards, whether the clock was read). -/\n'
+    parts.append('/-- the guard of the collection in `_process_frame` (`' + ast.unparse(test) + '`), recognised by shape (template chosen\n'
+                 '    by the order of its conjuncts; `and` short-circuits left to right).  Result: (are the locals collected, the flag afterwards, whether the clock was read). -/\n'
                  + sig + ' :=\n' + body)
     # the guard encloses the whole collection of a frame: nothing of it happens before the test
     inner = [ast.unparse(s) for s in g.body]
